@@ -10,22 +10,56 @@ import (
 	"testing"
 	"time"
 
+	"github.com/gotid/god/api/internal/response"
 	"github.com/gotid/god/internal/verifdrv"
 	"github.com/gotid/god/lib/logx"
 	"github.com/gotid/god/lib/stat"
 	"github.com/gotid/god/lib/timex"
 )
 
-// TestVerifDriverC01: {"arg": status} -> 30 requests answered with that status through a fresh
-// BreakerHandler, then 60 more: "ok" is false iff any request was cut off with 503 by the
-// breaker (30 failure marks give a drop ratio of 25/31 and more; success marks never drop).
+// response shapes: 0 WriteHeader(arg) | 1 Write without WriteHeader | 2 nothing written |
+// 3 WriteHeader(arg), Write, Flush, Write | 4 Write, Flush, Write (no WriteHeader) | 5 panic, converted by
+// RecoverHandler sitting inside (api/engine.go order) | 6 Flush only
+func verifC01Shape(shape, arg int, w http.ResponseWriter) {
+	flush := func() {
+		if f, ok := w.(http.Flusher); ok {
+			f.Flush()
+		}
+	}
+	switch shape {
+	case 0:
+		w.WriteHeader(arg)
+	case 1:
+		w.Write([]byte("verif"))
+	case 2:
+	case 3:
+		w.WriteHeader(arg)
+		w.Write([]byte("a"))
+		flush()
+		w.Write([]byte("b"))
+	case 4:
+		w.Write([]byte("a"))
+		flush()
+		w.Write([]byte("b"))
+	case 5:
+		panic("verif panic")
+	case 6:
+		flush()
+	}
+}
+
+// TestVerifDriverC01: {"arg": status, "shape": k} -> 200 requests answered with that response shape through ONE
+// fresh BreakerHandler on a frozen clock: "ok" is false iff any request was cut off (503, handler not reached) by
+// the breaker (failure marks: after 30 of them the drop ratio is 25/31 and rising; success marks never drop).
+// "code": what response.WithCodeResponseWriter.Code holds after the shape (for shape 5: after RecoverHandler).
 func TestVerifDriverC01(t *testing.T) {
 	logx.Disable()
 	metrics := stat.NewMetrics("verif")
 	n := 0
 	verifdrv.Run(t, func(raw json.RawMessage) any {
 		var c struct {
-			Arg int `json:"arg"`
+			Arg   int `json:"arg"`
+			Shape int `json:"shape"`
 		}
 		if err := json.Unmarshal(raw, &c); err != nil {
 			return map[string]any{"error": err.Error()}
@@ -34,13 +68,16 @@ func TestVerifDriverC01(t *testing.T) {
 		defer timex.VerifClockOff()
 		n++
 		reached := 0
-		h := BreakerHandler(http.MethodGet, fmt.Sprintf("/verif/%d", n), metrics)(http.HandlerFunc(
-			func(w http.ResponseWriter, r *http.Request) {
-				reached++
-				w.WriteHeader(c.Arg)
-			}))
+		var inner http.Handler = http.HandlerFunc(func(w http.ResponseWriter, r *http.Request) {
+			reached++
+			verifC01Shape(c.Shape, c.Arg, w)
+		})
+		if c.Shape == 5 {
+			inner = RecoverHandler(inner)
+		}
+		h := BreakerHandler(http.MethodGet, fmt.Sprintf("/verif/%d", n), metrics)(inner)
 		dropped := 0
-		for i := 0; i < 90; i++ {
+		for i := 0; i < 200; i++ {
 			rec := httptest.NewRecorder()
 			req := httptest.NewRequest(http.MethodGet, "http://localhost/verif", nil)
 			before := reached
@@ -49,6 +86,13 @@ func TestVerifDriverC01(t *testing.T) {
 				dropped++
 			}
 		}
-		return map[string]any{"ok": dropped == 0, "dropped": dropped}
+		// the writer the breaker handler looks at, probed directly with the same shape
+		cw := &response.WithCodeResponseWriter{Writer: httptest.NewRecorder()}
+		probe := http.Handler(http.HandlerFunc(func(w http.ResponseWriter, r *http.Request) { verifC01Shape(c.Shape, c.Arg, w) }))
+		if c.Shape == 5 {
+			probe = RecoverHandler(probe)
+		}
+		probe.ServeHTTP(cw, httptest.NewRequest(http.MethodGet, "http://localhost/verif", nil))
+		return map[string]any{"ok": dropped == 0, "dropped": dropped, "code": cw.Code}
 	})
 }
